@@ -123,3 +123,8 @@ def commands_keep_the_state_queryable(c, now, op, arg):
     assert c._travel_to_position is None or (isinstance(c._travel_to_position, int) and 0 <= c._travel_to_position <= 100)
     assert c._last_known_position_timestamp <= now
     assert c.travel_time_down > 0 and c.travel_time_up > 0
+
+
+ASSUMPTIONS = [
+    "time.time() is read once per query/command (one clock reading per call)",
+]
